@@ -22,6 +22,8 @@ var c18HTMLTokens = []string{
 	"<p style=\"", "style='", "&lt;", "&#60;", "x", "\x00", "position:fixed;",
 	// white space between the attribute name and '=' (legal HTML)
 	"<p style =\"", "<p STYLE\n= '",
+	// characters whose lower-case form has a different byte length (U+023A, an invalid UTF-8 byte)
+	"\u023a", "\xe9",
 }
 
 var c18CSSTokens = []string{"color", "position", "w\\69 dth", ":", ";", "red", "url(javascript:x)", "/*", "*/", "\"", "'", "@import", "{", "}", "\\", "!important", " ", "&#59 ", "&#x3a;"}
